@@ -69,7 +69,8 @@ def build_output(T, rng, op, full):
                 vals.append((loc, None)); continue          # the length of a streamed body is the transport's business
             if not present or m not in kinds:
                 vals.append((loc, None)); continue
-            v = gen_header(rng, m, kinds[m], ts.group(1) if ts else None)
+            # the text a client expects is in the format the API model gives the member (header default: http-date), whatever the code writes
+            v = gen_header(rng, m, kinds[m], (sp[m][2] if m in sp and kinds[m]["kind"] == "timestamp" else None) or (ts.group(1) if ts else None))
             desc["h"][m] = hexs(v); vals.append((loc, ("t", v)))
         elif loc == "OLMetadata":
             if not present:
@@ -165,6 +166,9 @@ def reference_client(vals, resp, extra, status_exp):
             if body != v[1]:
                 return "the body differs (%d bytes expected, %d received)" % (len(v[1]), len(body))
     # the length the transport is told (Content-Length is derived from it) must be the length of the body
+    if resp.get("lost_after_end_hint"):
+        return ("the body reports end-of-stream (is_end_stream) while %d more frame(s) - data or trailers - are still to come: a transport that "
+                "honours the hint ends the response without them" % resp["lost_after_end_hint"])
     sh = resp.get("size_hint")
     if sh and not resp.get("body_error"):
         if sh[0] > len(body) or (sh[1] is not None and sh[1] != len(body)):
@@ -330,7 +334,10 @@ def run(ctx):
             body = bytes.fromhex(data)
             rest = body[len(bytes.fromhex(decl)):] if body.startswith(bytes.fromhex(decl)) else None
             why = None
-            if resp["status"] != 200:
+            if resp.get("lost_after_end_hint"):
+                why = ("the body reports end-of-stream (is_end_stream) while %d more frame(s) - the trailers with the header-bound members - are still "
+                       "to come: a transport that honours the hint (hyper) ends the response without them" % resp["lost_after_end_hint"])
+            elif resp["status"] != 200:
                 why = "status %s" % resp["status"]
             elif rest is None:
                 why = "the body does not start with the XML declaration"
